@@ -174,3 +174,16 @@ CHECKS["C19"] = dict(
     stages=[dict(pkg="./pkg/resmgr/cache", run="TestVerifC19", shards=1),
             dict(pkg="./pkg/resmgr", run="TestVerifC19Balloons", shards=8)],
 )
+
+CHECKS["C15"] = dict(
+    level="model_checking", engine="schedx",
+    technique="stateless model checking of the real code under a controlled cooperative scheduler: DFS over all schedules with iterative preemption bounding; lock-discipline monitor; serialisability against all sequential orders",
+    rule="(A) a real resource manager whose RWMutex is the scheduler-aware shim and whose cache/policy fields are access-checking proxies; 2-3 logical threads, 1-2 requests each, on colliding pods/containers; every schedule up to the preemption "
+         "bound; oracle: every proxied cache/policy access happens under the resource manager lock, no deadlock, no panic, final state equals the final state of some sequential order; "
+         "(B) InsertPod + GetPodResources vs the fetch goroutine vs the environment (go/chan operations rewritten to scheduler calls); states = schedules executed, transitions = scheduling points; non-trivial = schedules",
+    bound=dict(quick="preemption bound 2", thorough="preemption bound 3 (pipeline) / unbounded (fetch)"),
+    assumptions=["scheduling points: resmgr lock operations, proxied cache/policy calls, goroutine creation and channel operations in cache/pod.go; plain memory accesses between points are atomic (data races at the memory-model level are out of scope)",
+                 "prometheus export off (metrics.Block() is a no-op)"],
+    stages=[dict(pkg="./pkg/resmgr/cache", run="TestVerifC15Fetch", shards=1),
+            dict(pkg="./pkg/resmgr", run="TestVerifC15", shards=16, quick=dict(deadline_s=420), thorough=dict(deadline_s=3000))],
+)
